@@ -7,11 +7,12 @@ from props.base import to_request, corpus_for  # noqa: F401
 ID = 'C04'
 LEAN_MODULES = ['PybtexModel.Props.C04']
 THEOREMS = {
-    'C04_matches_spec': 'the model of Person._parse_string equals the BibTeX rule (Spec.split) for EVERY non-empty string whose case-deciding tokens scan within the nesting limit or start with a capital',
+    'C04_char_classes': 'the character classes of model and rule are the interpreter\'s str.isalpha/isupper/islower tables (regenerated); kernel-checked facts the rule relies on: upper and lower case are disjoint, below U+0080 the classes are the ASCII ones, white space / braces / backslash / comma / tie / hyphen / digits are in no class, a first character that is a letter or cased is an ordinary brace-level-0 character, and the first-character clause of the rule matters only for a cased first character that is not a letter',
+    'C04_matches_spec': 'the model of Person._parse_string equals the BibTeX rule (Spec.split) for EVERY non-empty string whose case-deciding tokens scan within the nesting limit or start with an upper-case character',
     'C04_matches_spec_of_scan': 'the same under the plain hypothesis that every case-deciding token scans within the nesting limit',
     'C04_matches_rule_any': 'for every string, a successful parse is the rule\'s split with "is_von_name answers yes" as the lower-case test (no hypothesis)',
     'C04_matches_spec_neg': 'witness a{101 nested braces} B: the scan hypothesis cannot be dropped for tokens starting with a lower-case letter (is_von_name answers from the first character, the rule gives an over-nested token no case)',
-    'C04_case_of_token': "each token's case is decided by its first brace-level-0 letter or special character: is_von_name = Spec.isLow on every non-empty token with a decidable case",
+    'C04_case_of_token': "each token's case is decided by its first brace-level-0 letter or special character (a cased first character decides at once; a letter without case makes the token caseless): is_von_name = Spec.isLow on every non-empty token with a decidable case",
     'C04_total': 'parsing succeeds for every non-empty string, reporting too many commas exactly when there are more than three comma parts; the only exception is "too many nested braces" from a case-deciding token that does not scan; never IndexError / ValueError',
     'C04_total_person': 'Person(string, first, middle, prelast, last, lineage) for ANY six strings returns a person or raises "too many nested braces" caused by a token of the stripped string',
     'C04_tokens_nonempty': 'tokens of the tokeniser are never empty and a non-empty string has at least one comma part (why string[0] and the ValueError branch are unreachable)',
@@ -21,18 +22,48 @@ THEOREMS = {
     'C04_parts_same_tokenisation': 'explicit part arguments are tokenised by the same tokeniser and appended to the parts parsed from the string',
     'C04_braces_atomic': 'every returned token is a non-empty token of the tokeniser applied to the name, one of its first two comma parts or the blank-joined rest (brace atomicity reduces to C12\'s tokeniser theorems)',
 }
-RULE = ('all token shapes up to the tier token count over eight token classes {Capitalised, lowercase, braced, special-char upper, '
-        'special-char lower, caseless, hyphenated, tie-joined} x 0..3 commas at every position x separators {space, ~, two spaces, \\ }; '
-        'every string up to the tier length over {a B { } \\ , ~ space - 1} (totality); seeded noisy long names; the table of '
+RULE = ('all token shapes up to the tier token count over the ASCII token classes {Capitalised, lowercase, braced, special-char upper, '
+        'special-char lower, caseless, hyphenated, tie-joined} and the non-ASCII classes {cased letters (\u00c9douard, \u0432\u0430\u043d), letters '
+        'without case (CJK; okina + small letters; titlecase \u01c5), cased non-letters first (\u24b6b, \u24d0B) and inside (1\u24d0X), combining '
+        'mark first, special characters with non-ASCII letters} x 0..3 commas at every position x separators {space, ~, two spaces, \\ }; '
+        'every string up to the tier length over {a B { } \\ , ~ space - 1 \u6bdb \u24d0 \u00e9} (totality); seeded noisy long names with Latin-1, '
+        'Cyrillic, Greek, CJK, Hebrew, Hangul, circled and astral letters; tokens starting with code points at and next to the '
+        'boundaries of the interpreter\'s isalpha/isupper/islower ranges and with random code points; the table of '
         'tests/parse_name_test.py as corpus; non-trivial = more than one token or a comma; distinct by case JSON')
-TRUSTED = ['letters are ASCII in the model', 'tokenisation is the C12 model of split_tex_string']
-ASSUMPTIONS = ['names contain no non-ASCII letters']
+TRUSTED = ['character classes: str.isalpha / str.isupper / str.islower of the running interpreter on single code points, regenerated as '
+           'range tables (harness/tablegen/unicode.py -> Gen/Unicode.lean) on every run',
+           'tokenisation is the C12 model of split_tex_string']
+ASSUMPTIONS = []
 
 TOKENS = {'Cap': 'Smith', 'low': 'von', 'braced': '{Mc B}', 'spU': "{\\'E}cole", 'spL': "{\\'e}cole", 'caseless': '1{2}',
           'hyph': 'Jean-Paul', 'lowbr': '{\\v s}x', 'sp0': '{\\ae}b'}
+# token classes with non-ASCII characters.  "letter" (isalpha) and "cased" (isupper/islower) are independent in Unicode.
+UTOKENS = {'uCap': '\u00c9douard',            # cased letters outside ASCII
+           'uLow': '\u0432\u0430\u043d',            # Cyrillic "van"
+           'cjk': '\u6bdb\u6cfd',                # letters without case
+           'okinaLow': '\u02bbakahi',          # a letter without case (modifier letter) first, small letters after it
+           'title': '\u01c5x',                 # titlecase letter: a letter, neither upper nor lower
+           'circU': '\u24b6b',                 # upper-case but not a letter, first
+           'circL': '\u24d0B',                 # lower-case but not a letter, first
+           'circIn': '1\u24d0X',               # ... not first: skipped by the scan
+           'comb': '\u0301x',                  # combining mark (no class) first
+           'spUU': "{\\'\u00c9}x",              # special characters with non-ASCII letters
+           'spUL': '{\\relax \u0436}X'}
 CLASSES = list(TOKENS)
+UCLASSES = list(UTOKENS)
+ALLTOKENS = dict(TOKENS, **UTOKENS)
+# reduced class set for the longest shapes of the thorough tier
+CLASSES4 = ['Cap', 'low', 'caseless', 'spL', 'uCap', 'uLow', 'cjk', 'okinaLow', 'circL', 'title']
 SEPS = [' ', '~', '  ', '\\ ']
-ALPHA = ['a', 'B', '{', '}', '\\', ',', '~', ' ', '-', '1']
+ALPHA = ['a', 'B', '{', '}', '\\', ',', '~', ' ', '-', '1', '\u6bdb', '\u24d0', '\u00e9']
+UNICODE_NAMES = ['\u6bdb \u6cfd\u4e1c', '\u05d3\u05d5\u05d3 \u05d1\u05df \u05d2\u05d5\u05e8\u05d9\u05d5\u05df', '\u00c9douard van Beneden',
+                 '\u02bbAkahi Kealoha, Leilani', '\u5c71\u7530 van \u592a\u90ce Smith', '\uae40 Van Halen, Jr, Eddie', '(\u6bdb \u6cfd\u4e1c',
+                 '\u24b6b \u24d0b 1\u24d0X Z', '\u0416\u0430\u043d \u0432\u0430\u043d \u03c9mega \u01c5x \u03a9mega', 'e\u0301cole \u0301x Last',
+                 '\U0001d400 \U0001d41a \U00020000 \U00010400 \U00010428 Z', '\u00aa \u00df \u0131 \u0345x \u2160 \u2170 Z']
+UPOOL = ['\u00c9douard', '\u00e9lan', '\u0416\u0430\u043d', '\u0432\u0430\u043d', '\u03a9mega', '\u03c9mega', '\u6bdb', '\u6cfd\u4e1c', '\u05d1\u05df',
+         '\u05d3\u05d5\u05d3', '\uae40', '\uae40x', '\u02bbAkahi', '\u02bbokina', '\u24b6b', '\u24d0B', '\u24d0', '\u01c5x', '\u0301x', 'e\u0301',
+         "{\\'\u00c9}", "{\\'\u00e9}", '{\\relax \u0436}', '{\\relax \u6bdb}x', '{\\\u00e9 \u00c9}', '(\u6bdb', '1\u24d0X', '\u00df', '\u0131', '\u00aa',
+         '\u0345x', '\u2160', '\u2170x', '\U0001d400', '\U0001d41ab', '\U00020000', '\U00010428x', '{\u6bdb}\u00e9', '\u00e9{', '\u6bdb}']
 
 
 def impl(case):
